@@ -48,7 +48,7 @@ def table_case(draw):
     offsets = draw(st.lists(st.integers(1, 4000), min_size=4, max_size=4))
     rnd = draw(st.binary(min_size=8, max_size=64))
     flt_at = draw(st.integers(0, nfiles))
-    return {"kind": "table", "world": world, "files": files, "rewrite": rewrite, "offsets": offsets, "rnd": rnd, "flt_at": flt_at}
+    return {"kind": "table", "world": world, "files": files, "rewrite": rewrite, "offsets": offsets, "rnd": rnd, "flt_at": flt_at, "prebuilt_first": draw(st.booleans())}
 
 
 def _read(t, api, flt, verify):
@@ -112,6 +112,18 @@ def check_table(case):
         with w.env():
             t = w.create(make_schema(FIELDS))
             k = 0
+            if case.get("prebuilt_first") and w.kind == "local":
+                # a pre-built file handed in by the caller WITHOUT a checksum, committed first (planned before the library's own
+                # files): it cannot be verified - every file after it still must be
+                import pyarrow as pa
+                from datashard import DataFile, FileFormat
+
+                rel = "data/prebuilt-00000.parquet"
+                pth = os.path.join(w.root, rel)
+                os.makedirs(os.path.dirname(pth), exist_ok=True)
+                pq.write_table(pa.Table.from_pylist([{"k": 9000, "s": "pre"}, {"k": 9001, "s": "pre"}], schema=pa.schema([pa.field("k", pa.int64()), pa.field("s", pa.string())])), pth)
+                t.append_data([DataFile(file_path="/" + rel, file_format=FileFormat.PARQUET, partition_values={}, record_count=2, file_size_in_bytes=os.path.getsize(pth))])
+                out["labels"].append("checksum-less-file-first")
             for i, nrows in enumerate(case["files"]):
                 t.append_records([{"k": 10 * i + j, "s": f"f{i}"} for j in range(nrows)])
             if case["rewrite"]:
@@ -129,6 +141,7 @@ def check_table(case):
         targets = [("metadata", "metadata/" + v["metadata_file"]), ("mlist", norm(cur["manifest_list"]))]
         targets += [("manifest", m) for m in cur["manifests"]]
         targets += [("data", p) for p in cur["files"]]
+        nochecksum = {norm(e["path"]) for e in cur["entries"] if not e.get("checksum")}
         fs = w.fs()
         filters = {"none": None, "prune": {"k": (">=", 10 * case["flt_at"])}, "noprune": {"s": ("!=", "zzz")}}
         # undamaged answers + which files each filter keeps
@@ -188,7 +201,7 @@ def check_table(case):
                             stepper.enabled = True
                         for (api, ver, fn), exp in expected.items():
                             needed = cls != "data" or (api != "row_count" and path in kept[fn])
-                            must_raise = needed and (payload == "ERR" or not parse_ok or (cls == "data" and changed and ver is None))
+                            must_raise = needed and (payload == "ERR" or not parse_ok or (cls == "data" and changed and ver is None and path not in nochecksum))
                             for handle_kind in ("fresh", "warm"):
                               if handle_kind == "warm" and payload == "ERR":
                                   continue
